@@ -98,4 +98,131 @@ theorem length_spec_rem_present (m : Spec κ ν) (hnd : (m.map Prod.fst).Nodup) 
         unfold Spec.rem; rw [List.filter_cons]; simp [hpk]
       rw [this, List.length_cons, List.length_cons, ih hnd.2 h1]
 
+/-! ### the specification means "the last `set` of each key not since removed" -/
+
+theorem spec_get_set (m : Spec κ ν) (k k' : κ) (v : ν) :
+    Spec.get (Spec.set m k v) k' = if k' = k then some v else Spec.get m k' := by
+  unfold Spec.get Spec.set Spec.rem
+  by_cases h : k' = k
+  · subst h; simp
+  · have h' : ¬ k = k' := fun e => h e.symm
+    simp only [List.find?_cons, h', decide_false, if_neg h, List.find?_filter]
+    congr 2
+    funext p
+    by_cases hp : p.1 = k' <;> simp [hp, h]
+
+theorem spec_get_rem (m : Spec κ ν) (k k' : κ) :
+    Spec.get (Spec.rem m k) k' = if k' = k then none else Spec.get m k' := by
+  unfold Spec.get Spec.rem
+  by_cases h : k' = k
+  · subst h
+    simp only [if_true, Option.map_eq_none_iff, List.find?_eq_none]
+    intro p hp
+    simp [List.mem_filter] at hp
+    simpa using hp.2
+  · simp only [if_neg h, List.find?_filter]
+    congr 2
+    funext p
+    by_cases hp : p.1 = k' <;> simp [hp, h]
+
+/-- what one operation does to the binding of key `k` in table variable `t` -/
+def writeStep (t : Nat) (k : κ) : Op κ ν → Option ν → Option ν
+  | .set t' k' v, acc => if t' = t ∧ k' = k then some v else acc
+  | .rem t' k', acc => if t' = t ∧ k' = k then none else acc
+  | _, acc => acc
+
+/-- what a history of writes to table variable `t` leaves bound to key `k`: the value of the last `set t k _` unless a
+    `rem t k` came after it -/
+def lastWrite (t : Nat) (k : κ) (ops : List (Op κ ν)) (acc : Option ν) : Option ν :=
+  ops.foldl (fun a op => writeStep t k op a) acc
+
+/-- histories made of `set / rem / get / mem / len / iter / riter` only (`new`, `resize`, `assign`, `copy` replace whole maps) -/
+def Op.isPlain : Op κ ν → Prop
+  | .set .. | .rem .. | .get .. | .mem .. | .len .. | .iter .. | .riter .. => True
+  | _ => False
+
+theorem specStep_write (t : Nat) (k : κ) (ms : List (Spec κ ν)) (op : Op κ ν) (hop : op.isPlain) :
+    ((specStep ms op).1[t]?).map (fun m => Spec.get m k) = (ms[t]?).map (fun m => writeStep t k op (Spec.get m k)) := by
+  cases op with
+  | set t' k' v =>
+    simp only [specStep, writeStep]
+    cases hm : ms[t']? with
+    | none =>
+      by_cases e : t' = t
+      · subst e; simp [hm]
+      · simp [e]
+    | some m =>
+      obtain ⟨h1, h2⟩ := List.getElem?_eq_some_iff.mp hm
+      simp only [List.getElem?_set, h1, if_true]
+      by_cases e : t' = t
+      · subst e
+        simp only [if_true, hm, Option.map_some, true_and, spec_get_set]
+        by_cases ek : k = k' <;> simp [ek, eq_comm]
+      · simp [e]
+  | rem t' k' =>
+    simp only [specStep, writeStep]
+    cases hm : ms[t']? with
+    | none =>
+      by_cases e : t' = t
+      · subst e; simp [hm]
+      · simp [e]
+    | some m =>
+      obtain ⟨h1, h2⟩ := List.getElem?_eq_some_iff.mp hm
+      cases hg : Spec.get m k' with
+      | none =>
+        simp only [hg]
+        by_cases e : t' = t
+        · subst e
+          simp only [hm, Option.map_some, true_and]
+          by_cases ek : k' = k
+          · subst ek; simp [hg]
+          · simp [ek]
+        · simp [e]
+      | some v0 =>
+        simp only [hg, List.getElem?_set, h1, if_true]
+        by_cases e : t' = t
+        · subst e
+          simp only [if_true, hm, Option.map_some, true_and, spec_get_rem]
+          by_cases ek : k = k' <;> simp [ek, eq_comm]
+        · simp [e]
+  | get t' k' => simp only [specStep, writeStep]; (repeat' split) <;> rfl
+  | mem t' k' => simp only [specStep, writeStep]; (repeat' split) <;> rfl
+  | len t' => simp only [specStep, writeStep]; (repeat' split) <;> rfl
+  | iter t' => simp only [specStep, writeStep]; (repeat' split) <;> rfl
+  | riter t' => simp only [specStep, writeStep]; (repeat' split) <;> rfl
+  | new t' => exact absurd hop (by simp [Op.isPlain])
+  | resize t' n => exact absurd hop (by simp [Op.isPlain])
+  | assign d s => exact absurd hop (by simp [Op.isPlain])
+  | copy d s => exact absurd hop (by simp [Op.isPlain])
+
+/-- **the specification is "last write wins"**: after a plain history, table variable `t` binds `k` to the value of the last
+    `set t k _` not followed by a `rem t k` (and to what it bound before if the history never wrote `k`) -/
+theorem spec_last_write (t : Nat) (k : κ) :
+    ∀ (ops : List (Op κ ν)) (ms : List (Spec κ ν)), (∀ op ∈ ops, op.isPlain) →
+      ((specRun ms ops).1[t]?).map (fun m => Spec.get m k) = (ms[t]?).map (fun m => lastWrite t k ops (Spec.get m k)) := by
+  intro ops
+  induction ops with
+  | nil => intro ms _; simp [specRun, lastWrite]
+  | cons op ops ih =>
+    intro ms hplain
+    have hrest : ∀ o ∈ ops, o.isPlain := fun o ho => hplain o (List.mem_cons_of_mem _ ho)
+    have hop := hplain op List.mem_cons_self
+    have hrun : (specRun ms (op :: ops)).1 = (specRun (specStep ms op).1 ops).1 := rfl
+    rw [hrun, ih (specStep ms op).1 hrest]
+    have h1 := specStep_write t k ms op hop
+    cases hA : (specStep ms op).1[t]? with
+    | none =>
+      rw [hA] at h1
+      cases hB : ms[t]? with
+      | none => rfl
+      | some m => rw [hB] at h1; cases h1
+    | some m1 =>
+      rw [hA] at h1
+      cases hB : ms[t]? with
+      | none => rw [hB] at h1; cases h1
+      | some m =>
+        rw [hB] at h1
+        simp only [Option.map_some, Option.some.injEq] at h1 ⊢
+        rw [h1]; rfl
+
 end Cello.Table
